@@ -76,6 +76,8 @@ def rewrite_manifest(text):
 
 USE_COLLECTIONS = re.compile(r"^(\s*)use\s+std::collections::\{([^}]*)\}\s*;\s*$")
 USE_COLLECTION1 = re.compile(r"^(\s*)use\s+std::collections::(HashSet|HashMap)\s*;\s*$")
+USE_ATOMICS = re.compile(r"^(\s*)use\s+std::sync::atomic::\{([^}]*)\}\s*;\s*$")
+USE_ATOMIC1 = re.compile(r"^(\s*)use\s+std::sync::atomic::AtomicBool\s*;\s*$")
 USE_THREAD = re.compile(r"^(\s*)use\s+std::thread\s*;\s*$")
 
 
@@ -87,6 +89,23 @@ def redirect_imports(src):
         if USE_THREAD.match(line):
             lines[i] = "#[cfg(not(kani))] use std::thread; #[cfg(kani)] use crate::cache::verif_rt::thread;"
             done.append("std::thread")
+            continue
+        m = USE_ATOMIC1.match(line)
+        if m:
+            lines[i] = "#[cfg(not(kani))] %s #[cfg(kani)] use crate::cache::verif_rt::atomic::AtomicBool;" % line.strip()
+            done.append("std::sync::atomic::AtomicBool")
+            continue
+        m = USE_ATOMICS.match(line)
+        if m:
+            names = [n.strip() for n in m.group(2).split(",") if n.strip()]
+            if "AtomicBool" in names:
+                keep = [n for n in names if n != "AtomicBool"]
+                new = "#[cfg(not(kani))] %s " % line.strip()
+                if keep:
+                    new += "#[cfg(kani)] use std::sync::atomic::{%s}; " % ", ".join(keep)
+                new += "#[cfg(kani)] use crate::cache::verif_rt::atomic::AtomicBool;"
+                lines[i] = new
+                done.append("std::sync::atomic::AtomicBool")
             continue
         m = USE_COLLECTION1.match(line)
         if m:
@@ -114,7 +133,7 @@ def stage(tag, cfg_consts):
     returns dict(dir, sources={rel: sha}, redirected=[...], harness_files=[...])"""
     root = scratch_root()
     os.makedirs(root, exist_ok=True)
-    dest = os.path.join(root, "%s-%d" % (tag, os.getpid()))
+    dest = os.environ.get("VK_STAGE_DIR") or os.path.join(root, "%s-%d" % (tag, os.getpid()))
     if os.path.exists(dest):
         shutil.rmtree(dest)
     os.makedirs(dest)
@@ -165,7 +184,7 @@ def stage(tag, cfg_consts):
             info["missing_anchor_files"].append(rel)
             continue
         with open(target, "a") as f:
-            f.write('\n#[cfg(kani)] #[path = "%s"] mod verif_kani;\n' % hpath)
+            f.write('\n#[cfg(kani)] #[path = "%s"] pub(crate) mod verif_kani;\n' % hpath)
         info["harness_files"].append(hf)
     with open(os.path.join(cache_dir, "mod.rs"), "a") as f:
         f.write('\n#[cfg(kani)] #[path = "%s/vk_rt/verif_rt.rs"] pub(crate) mod verif_rt;\n' % dest)
